@@ -1,93 +1,127 @@
 -------------------------------- MODULE Store --------------------------------
 (***************************************************************************)
 (* The metadata store API (store/store.go; store/etcdv3, store/redis) as a *)
-(* reference state machine: pods, nodes, workloads (with their three key   *)
-(* families collapsed into one record), processing markers, deploy status, *)
-(* and the list / count queries.  Properties C23 (both backends behave     *)
-(* alike, failed creates change nothing), C24 (queries isolated per        *)
-(* application / entrypoint / node), C13's counting rule.                  *)
-(*                                                                         *)
-(*   pods   : set of pod names                                             *)
-(*   nodes  : node name -> [pod, bypass]                                   *)
-(*   wl     : workload id -> [app, entry, node]                            *)
-(*   proc   : <<app, entry, node, ident>> -> count                         *)
-(* Every API call is one action with its precondition for success; a call  *)
-(* whose precondition fails returns an error and leaves the state unchanged*)
-(* (CreateIsAtomic).  Where the two backends disagree today the reference  *)
-(* follows etcd, the default store.                                        *)
+(* reference state machine at the grain of the KEY FAMILIES the code       *)
+(* writes (store/etcdv3/mercury.go):                                       *)
+(*   pods   : /pod/info/<p>                                                *)
+(*   nodes  : /node/<n> and /node/<pod>:pod/<n> (always written together)  *)
+(*            + certificate keys, n -> [pod, bypass, lab, cert]            *)
+(*   winfo  : /workloads/<id>                  id -> [node, upd]           *)
+(*   widx   : /node/<n>:workloads/<id> and /deploy/<app>/<entry>/<n>/<id>  *)
+(*            (always written together)        <<n,id>> -> [node, upd]     *)
+(*   wstat  : /status/<app>/<entry>/<n>/<id>   set of <<n,id>>             *)
+(*   nstat  : /status:node/<n>                 set of n                    *)
+(*   proc   : /processing/<app>/<entry>/<n>/<ident> -> count               *)
+(* Every API call is one action; Class(o) is the reference result computed *)
+(* in the pre-state.  A call whose precondition fails returns an error and *)
+(* leaves the state unchanged (CreateIsAtomic).  Where the two backends    *)
+(* disagree the reference follows etcd, the default store.                 *)
+(* Properties: C23 (both backends = this reference, failed creates change  *)
+(* nothing), C24 (List / DeployStatus are exact per app, entry, node),     *)
+(* C13's counting rule (deployed + processing).                            *)
 (***************************************************************************)
 EXTENDS Integers, Sequences, FiniteSets, TLC
 
-CONSTANTS Pods, Nodes, Wls, Apps, Entries, Idents, MaxOps
+CONSTANTS Pods, Nodes, Wls, Idents, MaxOps
 AppOf(w) == IF w = "w4" THEN "b" ELSE "a"
 EntryOf(w) == IF w = "w3" THEN "y" ELSE "x"
 
-VARIABLES pods, nodes, wl, proc, hist
-vars == <<pods, nodes, wl, proc, hist>>
+VARIABLES pods, nodes, winfo, widx, wstat, nstat, proc, hist
+svars == <<pods, nodes, winfo, widx, wstat, nstat, proc>>
+vars == <<svars, hist>>
 Dom(f) == DOMAIN f
-Log(rec) == hist' = Append(hist, rec)
 Drop(f, k) == [x \in DOMAIN f \ {k} |-> f[x]]
 Put(f, k, v) == [x \in DOMAIN f \cup {k} |-> IF x = k THEN v ELSE f[x]]
 
-Init == pods = {} /\ nodes = <<>> /\ wl = <<>> /\ proc = <<>> /\ hist = <<>>
+SInit == pods = {} /\ nodes = <<>> /\ winfo = <<>> /\ widx = <<>> /\ wstat = {} /\ nstat = {} /\ proc = <<>>
+Init == SInit /\ hist = <<>>
 
 NodesOfPod(p) == {n \in Dom(nodes) : nodes[n].pod = p}
-\* the reference result of every call: TRUE = ok
-OkAddPod(p) == p \notin pods
-OkRemovePod(p) == p \in pods /\ NodesOfPod(p) = {}
-OkAddNode(n, p) == p \in pods /\ n \notin Dom(nodes)
-OkAddWorkload(w, n, k) == w \notin Dom(wl) /\ (k # "" => <<AppOf(w), EntryOf(w), n, k>> \in Dom(proc))
-OkUpdateWorkload(w, n) == w \in Dom(wl) /\ wl[w].node = n
-OkCreateProc(key) == key \notin Dom(proc)
+PKey(o) == <<o.a, o.b, o.c>>          \* processing key: "app/entry", node, ident
+WKey(w, n, k) == <<AppOf(w) \o "/" \o EntryOf(w), n, k>>
 
-AddPod(p) == /\ IF OkAddPod(p) THEN pods' = pods \cup {p} ELSE UNCHANGED pods
-             /\ UNCHANGED <<nodes, wl, proc>> /\ Log([op |-> "AddPod", a |-> p, b |-> "", c |-> "", n |-> 0])
-RemovePod(p) == /\ IF OkRemovePod(p) THEN pods' = pods \ {p} ELSE UNCHANGED pods
-                /\ UNCHANGED <<nodes, wl, proc>> /\ Log([op |-> "RemovePod", a |-> p, b |-> "", c |-> "", n |-> 0])
-AddNode(n, p, lab) == /\ IF OkAddNode(n, p) THEN nodes' = Put(nodes, n, [pod |-> p, bypass |-> FALSE]) ELSE UNCHANGED nodes
-                      /\ UNCHANGED <<pods, wl, proc>> /\ Log([op |-> "AddNode", a |-> n, b |-> p, c |-> lab, n |-> 0])
-RemoveNode(n) == /\ nodes' = IF n \in Dom(nodes) THEN Drop(nodes, n) ELSE nodes
-                 /\ UNCHANGED <<pods, wl, proc>> /\ Log([op |-> "RemoveNode", a |-> n, b |-> "", c |-> "", n |-> 0])
-SetBypass(n, v) == /\ n \in Dom(nodes) /\ nodes' = [nodes EXCEPT ![n].bypass = (v = 1)]
-                   /\ UNCHANGED <<pods, wl, proc>> /\ Log([op |-> "SetBypass", a |-> n, b |-> "", c |-> "", n |-> v])
-AddWorkload(w, n, k) ==
-    /\ IF OkAddWorkload(w, n, k)
-       THEN /\ wl' = Put(wl, w, [app |-> AppOf(w), entry |-> EntryOf(w), node |-> n])
-            /\ proc' = IF k = "" THEN proc ELSE [proc EXCEPT ![<<AppOf(w), EntryOf(w), n, k>>] = @ - 1]
-       ELSE UNCHANGED <<wl, proc>>
-    /\ UNCHANGED <<pods, nodes>> /\ Log([op |-> "AddWorkload", a |-> w, b |-> n, c |-> k, n |-> 0])
-UpdateWorkload(w, n) == /\ UNCHANGED <<pods, nodes, wl, proc>> /\ Log([op |-> "UpdateWorkload", a |-> w, b |-> n, c |-> "", n |-> 0])
-RemoveWorkload(w, n) == /\ wl' = IF w \in Dom(wl) /\ wl[w].node = n THEN Drop(wl, w) ELSE wl
-                        /\ UNCHANGED <<pods, nodes, proc>> /\ Log([op |-> "RemoveWorkload", a |-> w, b |-> n, c |-> "", n |-> 0])
-CreateProc(a, e, n, k, cnt) ==
-    /\ IF OkCreateProc(<<a, e, n, k>>) THEN proc' = Put(proc, <<a, e, n, k>>, cnt) ELSE UNCHANGED proc
-    /\ UNCHANGED <<pods, nodes, wl>> /\ Log([op |-> "CreateProc", a |-> a \o "/" \o e, b |-> n, c |-> k, n |-> cnt])
-DeleteProc(a, e, n, k) ==
-    /\ proc' = IF <<a, e, n, k>> \in Dom(proc) THEN Drop(proc, <<a, e, n, k>>) ELSE proc
-    /\ UNCHANGED <<pods, nodes, wl>> /\ Log([op |-> "DeleteProc", a |-> a \o "/" \o e, b |-> n, c |-> k, n |-> 0])
-\* status reports change no abstract state here (their lifetime is the subject of StoreStatus.tla)
-SetNodeStatus(n, ttl) == UNCHANGED <<pods, nodes, wl, proc>> /\ Log([op |-> "SetNodeStatus", a |-> n, b |-> "", c |-> "", n |-> ttl])
-SetWlStatus(w, n, ttl) == UNCHANGED <<pods, nodes, wl, proc>> /\ Log([op |-> "SetWorkloadStatus", a |-> w, b |-> n, c |-> "", n |-> ttl])
+(* ---- reference result of a call o = [op, a, b, c, n], TRUE = ok ---- *)
+Ok(o) ==
+  CASE o.op = "AddPod"            -> o.a \notin pods
+    [] o.op = "RemovePod"         -> o.a \in pods /\ NodesOfPod(o.a) = {}
+    [] o.op = "AddNode"           -> o.b \in pods /\ o.a \notin Dom(nodes)
+    [] o.op = "RemoveNode"        -> TRUE
+    [] o.op = "SetBypass"         -> o.a \in Dom(nodes)
+    [] o.op = "SetNodeStatus"     -> IF o.n = 0 THEN FALSE ELSE IF o.n < 0 THEN TRUE ELSE o.a \in Dom(nodes)
+    [] o.op = "AddWorkload"       -> IF o.c = "" THEN o.a \notin Dom(winfo) /\ <<o.b, o.a>> \notin Dom(widx)
+                                                ELSE WKey(o.a, o.b, o.c) \in Dom(proc)
+    [] o.op = "UpdateWorkload"    -> o.a \in Dom(winfo) /\ <<o.b, o.a>> \in Dom(widx)
+    [] o.op = "RemoveWorkload"    -> TRUE
+    [] o.op = "SetWorkloadStatus" -> IF o.n = 0 THEN TRUE ELSE o.a \in Dom(winfo)
+    [] o.op = "CreateProc"        -> PKey(o) \notin Dom(proc)
+    [] o.op = "DeleteProc"        -> TRUE
+Class(o) == IF Ok(o) THEN "ok" ELSE "err"
 
-\* Enabling conditions only bias the generated histories towards meaningful calls (a few calls on
-\* missing entities stay enabled on purpose); they are not preconditions of the API.
+(* ---- effect of a successful call ---- *)
+Effect(o) ==
+  CASE o.op = "AddPod"     -> pods' = pods \cup {o.a} /\ UNCHANGED <<nodes, winfo, widx, wstat, nstat, proc>>
+    [] o.op = "RemovePod"  -> pods' = pods \ {o.a} /\ UNCHANGED <<nodes, winfo, widx, wstat, nstat, proc>>
+    [] o.op = "AddNode"    -> nodes' = Put(nodes, o.a, [pod |-> o.b, bypass |-> FALSE, lab |-> o.c, cert |-> o.c # ""])
+                              /\ UNCHANGED <<pods, winfo, widx, wstat, nstat, proc>>
+    [] o.op = "RemoveNode" -> nodes' = (IF o.a \in Dom(nodes) THEN Drop(nodes, o.a) ELSE nodes)
+                              /\ UNCHANGED <<pods, winfo, widx, wstat, nstat, proc>>
+    [] o.op = "SetBypass"  -> nodes' = [nodes EXCEPT ![o.a].bypass = (o.n = 1)]
+                              /\ UNCHANGED <<pods, winfo, widx, wstat, nstat, proc>>
+    [] o.op = "SetNodeStatus" -> nstat' = (IF o.n < 0 THEN nstat \ {o.a} ELSE nstat \cup {o.a})
+                              /\ UNCHANGED <<pods, nodes, winfo, widx, wstat, proc>>
+    [] o.op = "AddWorkload" ->
+          /\ winfo' = Put(winfo, o.a, [node |-> o.b, upd |-> FALSE])
+          /\ widx' = Put(widx, <<o.b, o.a>>, [node |-> o.b, upd |-> FALSE])
+          /\ proc' = (IF o.c = "" THEN proc ELSE [proc EXCEPT ![WKey(o.a, o.b, o.c)] = @ - 1])
+          /\ UNCHANGED <<pods, nodes, wstat, nstat>>
+    [] o.op = "UpdateWorkload" ->
+          /\ winfo' = [winfo EXCEPT ![o.a] = [node |-> o.b, upd |-> TRUE]]
+          /\ widx' = [widx EXCEPT ![<<o.b, o.a>>] = [node |-> o.b, upd |-> TRUE]]
+          /\ UNCHANGED <<pods, nodes, wstat, nstat, proc>>
+    [] o.op = "RemoveWorkload" ->    \* deletes the info key whatever node the caller names
+          /\ winfo' = (IF o.a \in Dom(winfo) THEN Drop(winfo, o.a) ELSE winfo)
+          /\ widx' = (IF <<o.b, o.a>> \in Dom(widx) THEN Drop(widx, <<o.b, o.a>>) ELSE widx)
+          /\ wstat' = wstat \ {<<o.b, o.a>>}
+          /\ UNCHANGED <<pods, nodes, nstat, proc>>
+    [] o.op = "SetWorkloadStatus" -> wstat' = wstat \cup {<<o.b, o.a>>}
+                              /\ UNCHANGED <<pods, nodes, winfo, widx, nstat, proc>>
+    [] o.op = "CreateProc" -> proc' = Put(proc, PKey(o), o.n) /\ UNCHANGED <<pods, nodes, winfo, widx, wstat, nstat>>
+    [] o.op = "DeleteProc" -> proc' = (IF PKey(o) \in Dom(proc) THEN Drop(proc, PKey(o)) ELSE proc)
+                              /\ UNCHANGED <<pods, nodes, winfo, widx, wstat, nstat>>
+
+\* one API call: a failed call changes nothing (CreateIsAtomic)
+Apply(o) == IF Ok(o) THEN Effect(o) ELSE UNCHANGED svars
+
+(* ---- history generation (MC_Store): enabling conditions only bias the generated   ---- *)
+(* ---- histories towards meaningful calls; they are not preconditions of the API.   ---- *)
+O(op, a, b, c, n) == [op |-> op, a |-> a, b |-> b, c |-> c, n |-> n]
 Some(n) == n \in Dom(nodes) \/ n = "n1"
-Next == /\ Len(hist) < MaxOps
-        /\ \/ \E p \in Pods : AddPod(p) \/ RemovePod(p)
-           \/ \E n \in Nodes, p \in Pods, lab \in {"", "k"} : (p \in pods \/ p = "p1") /\ AddNode(n, p, lab)
-           \/ \E n \in Nodes : Some(n) /\ (RemoveNode(n) \/ SetBypass(n, 0) \/ SetBypass(n, 1) \/ SetNodeStatus(n, 5) \/ SetNodeStatus(n, -1))
-           \/ \E w \in Wls, n \in Nodes :
-                 \/ Some(n) /\ (AddWorkload(w, n, "") \/ \E k \in Idents : AddWorkload(w, n, k))
-                 \/ (w \in Dom(wl) \/ w = "w1") /\ Some(n) /\ (UpdateWorkload(w, n) \/ RemoveWorkload(w, n) \/ SetWlStatus(w, n, 0) \/ SetWlStatus(w, n, 5))
-           \/ \E a \in Apps, e \in Entries, n \in Nodes, k \in Idents :
-                 Some(n) /\ a = "a" /\ (CreateProc(a, e, n, k, 2) \/ (<<a, e, n, k>> \in Dom(proc) /\ DeleteProc(a, e, n, k)))
+OpSpace ==
+    {O("AddPod", p, "", "", 0) : p \in Pods} \cup {O("RemovePod", p, "", "", 0) : p \in Pods}
+    \cup {O("AddNode", n, p, lab, 0) : n \in Nodes, p \in {q \in Pods : q \in pods \/ q = "p1"}, lab \in {"", "k"}}
+    \cup UNION {{O("RemoveNode", n, "", "", 0), O("SetBypass", n, "", "", 0), O("SetBypass", n, "", "", 1),
+                 O("SetNodeStatus", n, "", "", -1), O("SetNodeStatus", n, "", "", 0)} : n \in {m \in Nodes : Some(m)}}
+    \* a heartbeat for an unrecorded node is where the backends are known to part: only late in a history
+    \cup {O("SetNodeStatus", n, "", "", 600) : n \in {m \in Nodes : m \in Dom(nodes) \/ (m = "n1" /\ Len(hist) >= MaxOps - 2)}}
+    \cup UNION {{O("AddWorkload", w, n, "", 0)} \cup {O("AddWorkload", w, n, k, 0) : k \in Idents} : w \in Wls, n \in {m \in Nodes : Some(m)}}
+    \cup UNION {{O("UpdateWorkload", w, n, "", 0), O("RemoveWorkload", w, n, "", 0), O("SetWorkloadStatus", w, n, "", 0), O("SetWorkloadStatus", w, n, "", 600)}
+                : w \in {v \in Wls : v \in Dom(winfo) \/ v = "w1"}, n \in {m \in Nodes : Some(m)}}
+    \cup {O("CreateProc", "a/" \o e, n, k, 2) : e \in {"x", "y"}, n \in {m \in Nodes : Some(m)}, k \in Idents}
+    \cup {O("DeleteProc", pk[1], pk[2], pk[3], 0) : pk \in Dom(proc)}
+Next == Len(hist) < MaxOps /\ \E o \in OpSpace : Apply(o) /\ hist' = Append(hist, o)
 Spec == Init /\ [][Next]_vars
 
-(* ---- queries (C24) ---- *)
-Match(w, a, e, n) == (a = "" \/ (wl[w].app = a /\ (e = "" \/ (wl[w].entry = e /\ (n = "" \/ wl[w].node = n)))))
-List(a, e, n) == {w \in Dom(wl) : Match(w, a, e, n)}
-DeployStatus(a, e) == [n \in {wl[w].node : w \in List(a, e, "")} \cup {k[3] : k \in {x \in Dom(proc) : x[1] = a /\ x[2] = e}} |->
-                          Cardinality(List(a, e, n)) + 0]
+(* ---- queries: what the read API must return in a state (C24, C13 counting rule) ---- *)
+Pairs(a, e, n) == {k \in Dom(widx) : (a = "" \/ (AppOf(k[2]) = a /\ (e = "" \/ (EntryOf(k[2]) = e /\ (n = "" \/ k[1] = n)))))}
+Dangling(K) == \E k \in K : k[1] \notin Dom(nodes)       \* a listed workload whose node is gone: the list call fails
+ProcOn(a, e, n) == LET K == {k \in Dom(proc) : k[1] = a \o "/" \o e /\ k[2] = n} IN
+                   IF K = {} THEN 0 ELSE LET RECURSIVE S(_)
+                                             S(X) == IF X = {} THEN 0 ELSE LET x == CHOOSE y \in X : TRUE IN proc[x] + S(X \ {x})
+                                         IN S(K)
+DeployCount(a, e, n) == Cardinality(Pairs(a, e, n)) + ProcOn(a, e, n)
+GetWl(w) == w \in Dom(winfo) /\ winfo[w].node \in Dom(nodes)
+
 (* ---- invariants of the reference ---- *)
-NodesInPods == \A n \in Dom(nodes) : nodes[n].pod \in pods
+NodesInPods == \A n \in Dom(nodes) : nodes[n].pod \in pods     \* sequentially, RemovePod refuses a pod with nodes
+IdxHasValue == \A k \in Dom(widx) : widx[k].node = k[1]
 =============================================================================
